@@ -473,13 +473,19 @@ def one(rec, hub, seed, tier, i):
 
     def call_balance(tol, raise_error):
         try:
-            mfa.check_mass_balance(tolerance=tol, raise_error=raise_error) if tol is not None else mfa.check_mass_balance(raise_error=raise_error)
+            if rng.random() < 0.3:
+                mfa.check_mass_balance(tol, raise_error)  # the same arguments by position
+            else:
+                mfa.check_mass_balance(tolerance=tol, raise_error=raise_error) if tol is not None else mfa.check_mass_balance(raise_error=raise_error)
         except Exception:
             pass
 
     def call_flows(**kw):
         try:
-            mfa.check_flows(**kw)
+            if kw and rng.random() < 0.3:
+                mfa.check_flows(kw.get("exceptions", []), kw.get("raise_error", False), kw.get("verbose", False))  # by position
+            else:
+                mfa.check_flows(**kw)
         except Exception:
             pass
 
